@@ -43,7 +43,7 @@ impl Prop for C17 {
 
     fn budget(tier: Tier) -> Budget {
         match tier {
-            Tier::Quick => Budget { cases: 1500, shards: 16 },
+            Tier::Quick => Budget { cases: 4500, shards: 16 },
             Tier::Thorough => Budget { cases: 60_000, shards: 16 },
         }
     }
